@@ -304,7 +304,8 @@ def applyDelete (fp : FilePatch α) (h : Hunk α) (d : Dir) (F : Nat) (mode : Mo
     if expected ≠ f.content then (f, { reps := [.failed .deleteMismatch], dir := d, fuzz := F })
     else
       let target := match d with | .fwd => fp.new | .rev => fp.old
-      ({ f with content := [], deleted := if target.isNone then true else f.deleted },
+      ({ f with content := [], deleted := if target.isNone then true else f.deleted,
+                perms := if target.isNone then none else f.perms },
        { reps := [.applied 0 0 0 (-(expected.length : Int)) F], dir := d, fuzz := F })
 
 /-- the dispatch at the top of `apply_internal`; `none` = `assert!(self.hunks.len() == 1)` fails
@@ -332,8 +333,8 @@ def applyInternal (fp : FilePatch α) (d : Dir) (F : Nat) (mode : Mode) (f : Fil
     | .normal =>
       let changeTo := match d with | .fwd => fp.newPerm | .rev => fp.oldPerm
       match changeTo with
-      | some p => some ({ f' with perms := some p }, { rep with prevDeleted := f.deleted, prevPerms := f'.perms })
-      | none => some (f', { rep with prevDeleted := f.deleted, prevPerms := f'.perms })
+      | some p => some ({ f' with perms := some p }, { rep with prevDeleted := f.deleted, prevPerms := f.perms })
+      | none => some (f', { rep with prevDeleted := f.deleted, prevPerms := f.perms })
 
 /-- `TextFilePatch::apply` -/
 def FilePatch.apply (fp : FilePatch α) (d : Dir) (F : Nat) (f : FileSt α) : Option (FileSt α × Report) :=
